@@ -798,4 +798,58 @@ theorem encF_reorder (H : Bs → Bs) : ∀ (f : Nat) (v w : PyVal) (m : Memo), R
         · rw [hs1] at hab ⊢; rw [str_reorder hab]
         · rw [hs2] at hab ⊢; exact ih _ b m' hab (hmem kv' hkv').2
 
+/-! ## iteration orders (for `C08.encode_seed_free`) -/
+
+mutual
+/-- The value as another interpreter sees it: every set and frozenset iterates in the order
+`iter` (a function of the string-hash seed and of the hash table's history) puts its elements. -/
+def reiter (iter : List PyVal → List PyVal) : PyVal → PyVal
+  | .list l => .list (reiterL iter l)
+  | .tuple l => .tuple (reiterL iter l)
+  | .set l => .set (iter (reiterL iter l))
+  | .frozenset l => .frozenset (iter (reiterL iter l))
+  | .dict l => .dict (reiterD iter l)
+  | .none => .none
+  | .bool b => .bool b
+  | .int i => .int i
+  | .float x => .float x
+  | .str s => .str s
+  | .bytes s => .bytes s
+def reiterL (iter : List PyVal → List PyVal) : List PyVal → List PyVal
+  | [] => []
+  | x :: xs => reiter iter x :: reiterL iter xs
+def reiterD (iter : List PyVal → List PyVal) : List (PyVal × PyVal) → List (PyVal × PyVal)
+  | [] => []
+  | (k, v) :: xs => (reiter iter k, reiter iter v) :: reiterD iter xs
+end
+
+mutual
+theorem reorder_reiter (iter : List PyVal → List PyVal) (hit : ∀ l, (iter l).Perm l) :
+    ∀ v : PyVal, Reorder v (reiter iter v)
+  | .list l => by simp only [reiter]; exact .list (reorderL_reiter iter hit l)
+  | .tuple l => by simp only [reiter]; exact .tuple (reorderL_reiter iter hit l)
+  | .set l => by simp only [reiter]; exact .set (reorderL_reiter iter hit l) (hit _).symm
+  | .frozenset l => by simp only [reiter]; exact .frozenset (reorderL_reiter iter hit l) (hit _).symm
+  | .dict l => by simp only [reiter]; exact .dict (reorderD_reiter iter hit l) (List.Perm.refl _)
+  | .none => .none
+  | .bool b => .bool b
+  | .int i => .int i
+  | .float x => .float x
+  | .str s => .str s
+  | .bytes s => .bytes s
+theorem reorderL_reiter (iter : List PyVal → List PyVal) (hit : ∀ l, (iter l).Perm l) :
+    ∀ l : List PyVal, ReorderL l (reiterL iter l)
+  | [] => .nil
+  | x :: xs => by simp only [reiterL]; exact .cons (reorder_reiter iter hit x) (reorderL_reiter iter hit xs)
+theorem reorderD_reiter (iter : List PyVal → List PyVal) (hit : ∀ l, (iter l).Perm l) :
+    ∀ l : List (PyVal × PyVal), ReorderD l (reiterD iter l)
+  | [] => .nil
+  | (k, v) :: xs => by
+    simp only [reiterD]
+    exact .cons (reorder_reiter iter hit k) (reorder_reiter iter hit v) (reorderD_reiter iter hit xs)
+end
+
+/-- Number of objects the pickler memoises while hashing `v`. -/
+def memoCount (H : Bs → Bs) (v : PyVal) : Nat := (encF H .fixed (depth v) v Memo.init).2.next
+
 end JoblibModel.HashStream
